@@ -4,7 +4,7 @@ import SciVerif.Tie.Pins
 /-! Tie A obligations for C09 on the current source. -/
 namespace SciVerif.Tie
 -- functions the model relies on without an obligation of its own naming them (pinned by bin/mkpins):
--- PIN-ALSO: Scipipe.Task_TempDir Scipipe.BaseProcess_receiveOnInPorts Scipipe.BaseProcess_receiveOnInParamPorts Scipipe.Process_createTasks
+-- PIN-ALSO: Scipipe.Sink_Run Scipipe.Workflow_runProcs Scipipe.Task_TempDir Scipipe.BaseProcess_receiveOnInPorts Scipipe.BaseProcess_receiveOnInParamPorts Scipipe.Process_createTasks
 open SciVerif.TaskFS SciVerif.Generated
 
 theorem generated_cmd_fail_fatal : taskSem.cmdFailFatal = true := by decide
@@ -71,6 +71,7 @@ theorem generated_all_ops_known_c09 : taskSemKnown = true := by decide
 
 
 
+
 -- BEGIN PINS (written by bin/mkpins; do not edit by hand)
 /-- the Go functions this property's model and obligations were written against have exactly the
 pinned skeletons (SHA-256 prefix of the atom list) -/
@@ -98,6 +99,7 @@ theorem pinned_skeletons_c09 :
      ("Scipipe.OutPort_Fail", "9599b0eba9214966"),
      ("Scipipe.OutPort_Failf", "f66582574c708db5"),
      ("Scipipe.Process_createTasks", "8c856d9ef4492f5d"),
+     ("Scipipe.Sink_Run", "2d6c7d95ef617224"),
      ("Scipipe.Task_Execute", "40fd1fec0c69deb2"),
      ("Scipipe.Task_Fail", "7efd50bffbc769dd"),
      ("Scipipe.Task_Failf", "9750abd3cdce8d29"),
@@ -108,7 +110,8 @@ theorem pinned_skeletons_c09 :
      ("Scipipe.Task_finalizePaths", "9cd0530d4e86fa92"),
      ("Scipipe.Task_formatCommand", "ccbe98735ce5c7d6"),
      ("Scipipe.Workflow_Fail", "d0b195ce154de1ab"),
-     ("Scipipe.Workflow_Failf", "3ec88e62b4857c47")] = true := by decide
+     ("Scipipe.Workflow_Failf", "3ec88e62b4857c47"),
+     ("Scipipe.Workflow_runProcs", "62dfa98c32085220")] = true := by decide
 -- END PINS
 
 end SciVerif.Tie
